@@ -828,24 +828,19 @@ Theorem C07_range_preds_table :
 Proof. exact TablesActions.model_range_preds. Qed.
 Print Assumptions C07_range_preds_table.
 
-(** the configuration gate ([assert_arg]: max_num_args, value_type_id): equal to the source for every action except
-    SetTrue/SetFalse, where the model is STRICTER (source: num_args(0..=1) and any value parser allowed) *)
+(** the configuration gate ([assert_arg]: max_num_args, value_type_id) has the source's data for every action (since the
+    repair of Parse/Cmd.v found by this comparison: SetTrue/SetFalse allow num_args(0..=1) and any value parser) *)
 Theorem C07_action_gate_table : forall act,
-  exists r ty, TablesActions.src_max_num_args act = Some r /\ TablesActions.src_value_type act = Some ty
-    /\ vmax (action_max_num_args act) <= vmax r
-    /\ (TablesActions.flag_action act = false -> action_max_num_args act = r /\ action_value_type act = ty)
-    /\ (TablesActions.flag_action act = true -> action_max_num_args act = r_empty /\ r = {| vmin := 0; vmax := 1 |}
-                                  /\ action_value_type act = Some (vp_type VPBool) /\ ty = None).
+  TablesActions.src_max_num_args act = Some (action_max_num_args act)
+  /\ TablesActions.src_value_type act = Some (action_value_type act).
 Proof. exact TablesActions.model_action_gate. Qed.
 Print Assumptions C07_action_gate_table.
 
-(** "the model's max_num_args / value_type_id equal the table" is false of the model (witness SetTrue; the real crate
-    accepts `--flag=false` for SetTrue + num_args(0..=1), the model answers INVALID: docs/notes/translators.md) *)
-Theorem C07_action_gate_table_refuted :
-  exists act, TablesActions.src_max_num_args act <> Some (action_max_num_args act)
-              /\ TablesActions.src_value_type act <> Some (action_value_type act).
-Proof. exact TablesActions.model_action_gate_refuted. Qed.
-Print Assumptions C07_action_gate_table_refuted.
+(** the actions whose occurrences can carry a value are exactly Set / Append and SetTrue / SetFalse (`--flag=value`) *)
+Theorem C07_action_takes_value_arg : forall act,
+  vmax (action_max_num_args act) <> 0 <-> (act = ASet \/ act = AAppend \/ act = ASetTrue \/ act = ASetFalse).
+Proof. exact TablesActions.model_action_takes_value_arg. Qed.
+Print Assumptions C07_action_takes_value_arg.
 
 (** whatever the model's gate accepts passes the source's two assertions about the action *)
 Theorem C07_gate_implies_source : forall a, assert_arg a = true ->
